@@ -47,13 +47,15 @@ import (
 
 	"verif/pkg/chanpair"
 	"verif/pkg/ev"
+	"verif/pkg/keys"
 	"verif/pkg/mitm"
 	"verif/pkg/netx"
+	"verif/pkg/refcodec"
 )
 
 func TestMain(m *testing.M) { ev.Main(m) }
 
-var rec = ev.For("C09", "gopcua client<->server channel pair per case (5 secured policies x Sign/SignAndEncrypt x receiving kind server/client), 1-3 sender messages (single/multi chunk) captured at a MITM tap, ONE mutation (bit flip by region, multi-byte overwrite, truncation to L in [8,len) with/without MessageSize fix-up, extension by 1-64 bytes with/without fix-up, ChunkType/SecureChannelID/TokenID/MessageType rewrite, frame replaced by the corresponding chunk of a second channel with other keys, frame replaced by an unsigned plain OpenSecureChannel chunk naming policy None or the channel's policy) applied to one frame; plus all truncation lengths of one ~200-byte chunk per policy/mode/kind; non-trivial = the first non-genuine frame, as the receiver frames the stream, is complete and passes the UACP size checks (reaches the secure channel); distinct by hash of the case")
+var rec = ev.For("C09", "gopcua client<->server channel pair per case (5 secured policies x Sign/SignAndEncrypt x receiving kind server/client), 1-3 sender messages (single/multi chunk) captured at a MITM tap, ONE mutation (bit flip by region, multi-byte overwrite, truncation to L in [8,len) with/without MessageSize fix-up, extension by 1-64 bytes with/without fix-up, ChunkType/SecureChannelID/TokenID/MessageType rewrite, frame replaced by the corresponding chunk of a second channel with other keys, frame replaced by an unsigned plain OpenSecureChannel chunk naming policy None or the channel's policy, or by a complete asymmetric chunk encrypted for the receiver but signed with a foreign key) applied to one frame; plus all truncation lengths of one ~200-byte chunk per policy/mode/kind; non-trivial = the first non-genuine frame, as the receiver frames the stream, is complete and passes the UACP size checks (reaches the secure channel); distinct by hash of the case")
 
 // ---------------------------------------------------------------------------
 // case
@@ -523,6 +525,44 @@ func forgeOPN(c Case, channelID uint32, mu Mut) ([]byte, string) {
 	if c.Kind == "client" {
 		sender, receiver = sk, ck
 	}
+	if mod(mu.Off, 6) >= 4 {
+		// A complete asymmetric chunk: encrypted correctly for the receiver, the
+		// genuine sender's public certificate in the header - but signed with a
+		// key the sender does not own (the only thing the adversary lacks).
+		rp := refcodec.PolicyByURI(pol)
+		if rp == nil || !rp.Secure() {
+			return nil, ""
+		}
+		wrong := keys.Get("a", 2048)
+		if wrong.Key.N.Cmp(sender.Key.N) == 0 {
+			wrong = keys.Get("b", 2048)
+		}
+		if wrong.Key.N.BitLen() != sender.Key.N.BitLen() {
+			wrong = keys.Get(map[bool]string{true: "b", false: "a"}[sender.Who == "a"], sender.Bits)
+		}
+		seq := []uint32{1, 2, 3, 4, 5000, mu.Val}[mod(int(mu.Val), 6)]
+		var body []byte
+		var err error
+		if c.Kind == "server" {
+			body, err = refcodec.EncodeService(&ua.OpenSecureChannelRequest{
+				RequestHeader: &ua.RequestHeader{AuthenticationToken: ua.NewTwoByteNodeID(0), Timestamp: time.Unix(1700000000, 0), AdditionalHeader: ua.NewExtensionObject(nil)},
+				RequestType:   ua.SecurityTokenRequestTypeRenew, SecurityMode: mitm.Mode(c.Mode), ClientNonce: fillBytes(mu.Val, rp.NonceLen), RequestedLifetime: 3600000})
+		} else {
+			body, err = refcodec.EncodeService(&ua.OpenSecureChannelResponse{
+				ResponseHeader: &ua.ResponseHeader{Timestamp: time.Unix(1700000000, 0), RequestHandle: seq, ServiceDiagnostics: &ua.DiagnosticInfo{}, StringTable: []string{}, AdditionalHeader: ua.NewExtensionObject(nil)},
+				SecurityToken:  &ua.ChannelSecurityToken{ChannelID: channelID, TokenID: 1 + mu.Val%7, CreatedAt: time.Unix(1700000000, 0), RevisedLifetime: 3600000},
+				ServerNonce:    fillBytes(mu.Val, rp.NonceLen)})
+		}
+		if err != nil {
+			return nil, ""
+		}
+		f, err := refcodec.BuildAsymChunk(rp, refcodec.AsymHeader{ChunkType: 'F', SecureChannelID: channelID, SequenceNumber: seq, RequestID: seq,
+			SenderCert: sender.Cert, SenderKey: wrong.Key, ReceiverCert: receiver.Cert}, body, refcodec.AsymOptions{})
+		if err != nil {
+			return nil, ""
+		}
+		return f, "forgeopn:encrypted-for-the-receiver,signed-with-a-foreign-key"
+	}
 	var hdr *uasc.AsymmetricSecurityHeader
 	var fine string
 	switch mod(mu.Off, 4) {
@@ -926,7 +966,7 @@ func genCase(t *rapid.T, kind string) Case {
 		m.Off = rapid.IntRange(0, 3).Draw(t, "new")
 		m.Val = rapid.Uint32().Draw(t, "val")
 	case "forgeopn":
-		m.Off = rapid.IntRange(0, 3).Draw(t, "header")
+		m.Off = rapid.IntRange(0, 5).Draw(t, "header")
 		m.Bit = rapid.IntRange(0, 3).Draw(t, "issue/nonce")
 		m.Val = rapid.Uint32().Draw(t, "val")
 	}
